@@ -356,7 +356,21 @@ def decode_union(*types: type[T]) -> Callable[[Any], T | Any]:
     # first function that doesn't raise an exception.
 
     # Try using each of the non-None types, in succession. Worst case, return the value.
-    return try_functions(*decoding_fns)
+    try_all = try_functions(*decoding_fns)
+
+    primitive_types = (bool, int, float, str)
+    if types_list and all(t in primitive_types for t in types_list):
+        # A Union of primitives: a value that already is (exactly) an instance of one of the members
+        # is left as it is. Trying the members in order would silently turn the str "12" of a
+        # `Union[int, str]` into the int 12, or the int 2 of a `Union[float, int]` into 2.0.
+        def _decode_union_of_primitives(val: Any) -> T | Any:
+            if type(val) in types_list:
+                return val
+            return try_all(val)
+
+        return _decode_union_of_primitives
+
+    return try_all
 
 
 def decode_list(t: type[T]) -> Callable[[list[Any]], list[T]]:
